@@ -126,6 +126,27 @@ def make_symbolic(I, kind, name):
         return [make_symbolic(I, kind[1], "%s[%d]" % (name, i)) for i in range(lens[k])]
     if tag == 'tuple':
         return tuple(make_symbolic(I, k, "%s[%d]" % (name, i)) for i, k in enumerate(kind[1:]))
+    if tag == 'payload':
+        # request payload: every field that is not given a kind is created on first use as a
+        # maybe-absent holder with an uninterpreted, request-tainted `.value`
+        cls = _resolve_class(kind[1])
+        o = Obj(cls, {}, name)
+        given = kind[2] if len(kind) > 2 else {}
+        for f, fk in given.items():
+            o.fields[f] = make_symbolic(I, fk, "%s.%s" % (name, f))
+
+        def dyn(I2, obj, fname):
+            from .envmodel import _Val
+            holder = Obj(_Val, {}, "%s.%s" % (name, fname))
+            holder.meta['dynamic'] = lambda I3, h, a: h.fields.setdefault(
+                a, Opaque('object', "%s.%s.%s" % (name, fname, a), taint=frozenset(['request'])))
+            v = SOpt(fresh("%s.%s_absent" % (name, fname), z3.BoolSort()), holder)
+            obj.fields[fname] = v
+            obj.meta.setdefault('lazy_created', {})[fname] = v
+            return v
+        o.meta['dynamic'] = dyn
+        o.meta['initial_fields'] = dict(o.fields)
+        return o
     if tag == 'engine':
         from . import dbmodel
         return dbmodel.make_engine(I, name, *kind[1:])
@@ -474,6 +495,9 @@ def _check_frame(I, c, qn, heap0, args):
         if bad:
             break
         for f in o.fields:
+            if f not in fields and (o.meta.get('lazy_created', {}).get(f) is o.fields[f]
+                                    or o.meta.get('initial_columns', {}).get(f) is o.fields[f]):
+                continue        # materialised by a read
             if f not in fields and (oid, f) not in allowed:
                 bad = "%s.%s (new field)" % (o.cls.__name__, f)
                 break
@@ -602,6 +626,8 @@ def apply_contract(I, c, ex, args, kwargs):
         return [node]
 
     for (ename, src) in c.ensures_:
+        if ename in getattr(c, 'not_assumed_', ()):
+            continue
         for node in conjuncts(parse_expr(src)):
             e2 = pyvc.Env(dict(loc), G, ex.cls, '<spec>', None)
             e2.spec, e2.old = True, old
